@@ -5,6 +5,7 @@
 // ops:  A:<t>:<size>            append one entry of <size> bytes            (expects Ok)
 //       B:<t>:<s1>,<s2>,..      batch append                                (expects Ok)
 //       E:<t>:<size>            append that must FAIL (and leave no trace); clears all injected faults afterwards
+//       EB:<t>:<s1>,<s2>,..     batch append that must FAIL (and leave no trace)
 //       F:<KIND>:<0|1>          switch an injected fault (FSYNC, CREATE, RENAME) on/off (needs LD_PRELOAD=libwalrusfault.so)
 // mode suffix "+sync" selects FsyncSchedule::SyncEach (e.g. strict+sync)
 //       R:<t>                   consuming read_next                         (must return log[pos], pos+=1, or None iff pos==len)
@@ -85,6 +86,15 @@ fn run(name: &str, mode_full: &str, ops: &[&str], base: &PathBuf) -> Result<(), 
                 let r = w.append_for_topic(f[1], &p);
                 for v in ["FSYNC", "CREATE", "RENAME"] { unsafe { std::env::remove_var(format!("WALRUS_FAULT_{}", v)); } }
                 if r.is_ok() { return fail("append unexpectedly succeeded".into()); }
+                topics.entry(f[1].to_string()).or_default();
+            }
+            "EB" => {
+                // a batch append that must FAIL and leave no trace
+                let ps: Vec<Vec<u8>> = f[2].split(',').map(|s| vec![0x5bu8; s.parse().unwrap()]).collect();
+                let refs: Vec<&[u8]> = ps.iter().map(|v| v.as_slice()).collect();
+                let r = w.batch_append_for_topic(f[1], &refs);
+                for v in ["FSYNC", "CREATE", "RENAME"] { unsafe { std::env::remove_var(format!("WALRUS_FAULT_{}", v)); } }
+                if r.is_ok() { return fail("batch append unexpectedly succeeded".into()); }
                 topics.entry(f[1].to_string()).or_default();
             }
             "B" => {
